@@ -9,7 +9,7 @@ from ..runner import Outcome, Part
 
 ID = "C01"
 TITLE = "Every assembly coolant energy balance closes at every axial step"
-TECHNIQUE = "property-based testing (Hypothesis): per-step conservation identities on generated sweeps, metamorphic step-halving pairs, operator probing of the exchange terms"
+TECHNIQUE = "property-based testing (Hypothesis): per-step conservation identities on generated sweeps, metamorphic step-halving pairs, operator probing of the exchange terms; whole-sweep balance of every assembly of generated adiabatic cores (identical and nearly identical twins)"
 RULE = ("generated single-assembly problems (2-6 rings, 1-3 ducts, flowing/stagnant bypass, all correlation "
         "families, Re 150..2e5, per-item polynomial power on 1-3 axial cells, adiabatic or gap-coupled wall, "
         "conv_approx, param_update_tol, low-fidelity and multi-region assemblies) driven step by step through "
